@@ -96,6 +96,7 @@ type loopInfo struct {
 	variantHead string
 	headState   *State
 	preserved   map[string]string // heap key -> version at the loop head (loop K preserves)
+	freshWr     map[string]string // heap key -> version at the loop head (loop K freshwrites)
 }
 
 type frame struct {
@@ -588,7 +589,13 @@ func (f *FuncVC) namedLoad(st *State, v Val, t types.Type, hint string) Val {
 		}
 		raw := v.T
 		v.T = f.define("ld."+hint, sortOf(v.K, v.W), v.T)
-		f.assume(f.typeInv(st, v, t))
+		ist := st
+		if cur, ok := st.heap[hint]; ok && cur == hint+"@0" && f.entryState != nil && f.entryState.heap["alloc"] != "" {
+			// read from a heap component that is still at its entry version: the entry heap references only
+			// objects that were allocated at entry (stronger than "allocated now"; allocation only grows)
+			ist = &State{heap: map[string]string{"alloc": f.entryState.heap["alloc"]}}
+		}
+		f.assume(f.typeInv(ist, v, t))
 		if v.T != raw {
 			f.loadCache[raw] = cacheEnt{v.T, len(f.cmds)}
 		}
